@@ -209,6 +209,23 @@ CHECKS = {
         "called directly with one shared cache; the click command line itself is not in the loop. Bounds: 15 directories, 6 names.",
         "DESIGN.md 3/C19",
     ),
+    "C20": (
+        "exploration",
+        "property-based testing with exhaustive enumeration of the user-settable configurations of each generated tree as ground truth (Hypothesis + itertools.product)",
+        "Generated trees with the target machinery of ESP-IDF (IDF_TARGET from the environment, promptless IDF_TARGET_<CHIP> bools that "
+        "select promptless capabilities, a derived int capability) and <=7 further options / menus / choices depending on them and on "
+        "each other through every relation kind, for targets chipa / chipb / other. The configuration space of each tree (bools x choice "
+        "picks x boundary values of every literal an option is compared with) is enumerated with set_value(); the implementation's own "
+        "evaluator gives the truth value of every prompt condition in every configuration. Checked: every prompted option / choice "
+        "visible in some configuration has its anchor in the RST written by write_docs(); every condition the generator prints "
+        "(can-be-set-when, range, default, affects, forced-by) has the truth value of the Kconfig condition it was simplified from in "
+        "every configuration (where the stripped direct dependencies hold); every :ref: target is an anchor of the same text.",
+        "Trusted: expr_value()/set_value() of esp_kconfiglib as ground truth for visibility (their agreement with the documented "
+        "semantics is C01's subject); the conditions are obtained by calling _prepare_cond/_filter_possibly_applicable_rows the way "
+        "write_menu_item does, not by parsing the RST prose. Bounds: <=1024 configurations per tree (larger spaces sampled by stride "
+        "and labelled), 3 targets, no multi-definition symbols, no undefined identifiers in relations.",
+        "DESIGN.md 3/C20",
+    ),
     "C18": (
         "exploration",
         "property-based testing with a canonical renderer (must be accepted unchanged) and whitespace manglings (must converge to an equivalent OK file) (Hypothesis)",
